@@ -25,6 +25,10 @@ def constructs(rnd=None):
         ('pr"/b\\d"', "__xonsh__.path_literal(r'/b\\d')"),
         ("Rp'/c'", "__xonsh__.path_literal(R'/c')"),
         ("P'/d'", "__xonsh__.path_literal('/d')"),
+        ("p'/a' 'b'", "__xonsh__.path_literal('/a' 'b')"),
+        ("p'/a' r'\\b' \"c\"", "__xonsh__.path_literal('/a' r'\\b' \"c\")"),
+        ("range?.index?", "__xonsh__.help(__xonsh__.help(range).index)"),
+        ("a?.b??", "__xonsh__.superhelp(__xonsh__.help(a).b)"),
         ("range?", "__xonsh__.help(range)"),
         ("int??", "__xonsh__.superhelp(int)"),
         ("(u && v)", "(u and v)"),
